@@ -25,6 +25,10 @@ Driver for C08.
                                (types F and D only)                                                                          ↦ retract h / nothing
             W                  engine.reset_with_deffacts(): working memory AND truth maintenance start again (handles from 1); one
                                deffacts fact is loaded ↦ a NEW history starts (model and oracle run it from `init`) with one insert
+          Rule names: a logical token (`L`, `Lk`, `J`, `Fl`) may end in `@<n>` = the source-rule NAME the harness hands to the call
+          (entry n of its table: empty, blank, very long, non-ASCII, equal names …). The name is a label — `Model.Op` has no
+          rule name and the property does not mention one — so the suffix is removed here (`stripName`) and model, oracle and
+          every theorem see the same history as without it.
   drv_c08 model   : case        ↦ obs predicted by the model
   drv_c08 oracle  : case | obs  ↦ `ok <tags>` / `fail <clause>@<step>` (Spec.runOk on the observations)
 -/
@@ -86,7 +90,16 @@ def splitW : List String → List (List String)
     | seg :: segs => if t = "W" then [] :: (t :: seg) :: segs else (t :: seg) :: segs
     | [] => [[t]]
 
-def parseSeg (toks : List String) : Option (List (Option Op)) :=
+/-- a token without its rule-name suffix `@<n>` (only logical tokens may carry one; `n` must be a number) -/
+def stripName (t : String) : Option String :=
+  match t.splitOn "@" with
+  | [a] => some a
+  | [a, n] =>
+    if (a.startsWith "L" || a.startsWith "J" || a.startsWith "Fl") && n.toNat?.isSome then some a else none
+  | _ => none
+
+def parseSeg (toks : List String) : Option (List (Option Op)) := do
+  let toks ← toks.mapM stripName
   let kinds := (toks.map kindsOfTok).flatten
   (toks.mapM (parseTok kinds)).map List.flatten
 
@@ -281,7 +294,9 @@ def oracleLine (line : String) : String :=
         match l with
         | [] =>
           match flags with
-          | [] => joinSp ("ok" :: tags.eraseDups ++ (if segs.length > 1 then ["reset_with_deffacts"] else []))
+          | [] => joinSp ("ok" :: tags.eraseDups ++ (if segs.length > 1 then ["reset_with_deffacts"] else [])
+              ++ (if (c.splitOn "@").length > 1 then ["rule_name_given"] else [])
+              ++ (if (tokens c).any (fun t => t.endsWith "@0") then ["rule_name_empty"] else []))
           | f :: _ => s!"fail inconsistent-{f}"
         | (ts, st) :: r =>
           match oracleSeg k ts st with
